@@ -503,6 +503,39 @@ func genC18(r *simrt.Rand, tier string) any {
 	n := 10 + r.Int(60)
 	nip, nconn := 1+r.Int(3), 1+r.Int(3)
 	ops := []string{"", "", "", "read_large", "write_large", "readdir", "mount"}
+	if r.Pct(8) {
+		// many-addresses motif: more addresses than one cleanup pass removes (the pass is capped), each heard
+		// from once, so that several passes run over a large table of idle buckets - and one client that keeps
+		// exceeding its own limit all the while: no pass may hand it a fresh bucket
+		nip = []int{105, 160, 240, 300, 420}[r.Int(5)]
+		sc.Cfg.PerIP, sc.Cfg.PerIPBurst = 1, 1+r.Int(3)
+		sc.Cfg.Global = []int{0, 50}[r.Int(2)]
+		sc.Cfg.PerConn = 0
+		sc.Cfg.CleanupMs = []int{1, 100}[r.Int(2)]
+		ab := nip + 1
+		for i := 0; i < nip; i++ {
+			op := "" // per-address buckets; now and then a per-operation one as well
+			if r.Pct(15) {
+				op = ops[r.Int(len(ops))]
+			}
+			sc.Events = append(sc.Events, LimEv{DtNs: int64(r.Int(3)) * 1e5, IP: i, Conn: r.Int(nconn), Op: op})
+			if i%40 == 7 {
+				for k := 0; k < 4; k++ {
+					sc.Events = append(sc.Events, LimEv{DtNs: int64(r.Int(5)) * 1e6, IP: ab, Conn: 0})
+				}
+			}
+		}
+		// the abuser keeps sending (mostly refused, its bucket stays near empty) while all the others fall idle and
+		// their buckets fill up: the passes its requests trigger then meet a table of more full buckets than one
+		// pass removes
+		for k, nk := 0, 40+r.Int(70); k < nk; k++ {
+			sc.Events = append(sc.Events, LimEv{DtNs: int64(15+r.Int(50)) * 1e6, IP: ab, Conn: 0})
+			if r.Pct(6) {
+				sc.Events = append(sc.Events, LimEv{DtNs: int64(r.Int(5)) * 1e6, IP: r.Int(nip), Conn: 1, Op: ops[r.Int(len(ops))]})
+			}
+		}
+		n = 5 + r.Int(20)
+	}
 	for i := 0; i < n; i++ {
 		op := ops[r.Int(len(ops))]
 		rate := sc.Cfg.PerIP
@@ -592,7 +625,7 @@ func init() {
 	real := []string{"RateLimiter", "TokenBucket", "PerIPLimiter (incl. cleanup)", "PerOperationLimiter (incl. cleanup)", "per-connection sync.Map limiters"}
 	stub := []string{"clock (synctest fake clock)", "sync.Mutex (simrt equivalents)", "the connection loop is not in this family (it is exercised by C14/C16)"}
 	Register(&Prop{ID: "C18", Level: "exploration",
-		Rule: "one case = a timing sequence of 10-70 AllowRequest/AllowOperation events over 1-3 IPs, 1-3 connections and all four operation types on the fake clock, with gaps drawn from {0, a third of a token, just over k tokens, milliseconds, seconds, hours (longer than CleanupInterval)} and rates/bursts incl. zero and the fractional mount rate; oracles: per limiter instance admitted <= burst + rate*elapsed at every prefix (reference buckets), a request inside all limits is admitted when nothing was refused before, and the same sequence under CleanupInterval 1 ms and 24 h yields identical decisions; 25% of the cases are concurrent: 2-4 tasks issue 1-4 AllowRequest/AllowOperation calls each for 1-2 addresses and connections at ONE simulated instant under the seeded scheduler (buckets are created while others look them up; in half of these after earlier traffic and a silence of two hours, so that the periodic cleanup of idle limiters runs in the middle of the burst) and every limit may then admit at most its burst; non-trivial = at least one event; distinct by event digest",
+		Rule: "one case = a timing sequence of 10-70 AllowRequest/AllowOperation events over 1-3 IPs, 1-3 connections and all four operation types on the fake clock, with gaps drawn from {0, a third of a token, just over k tokens, milliseconds, seconds, hours (longer than CleanupInterval)} and rates/bursts incl. zero and the fractional mount rate; oracles: per limiter instance admitted <= burst + rate*elapsed at every prefix (reference buckets), a request inside all limits is admitted when nothing was refused before, and the same sequence under CleanupInterval 1 ms and 24 h yields identical decisions; 8% of the sequential cases are the many-addresses motif: 105-420 addresses heard from once (more idle buckets than one capped cleanup pass removes) while one client keeps exceeding its own limit every 15-65 ms for 1-7 s, so that several passes run over a large table while that client's bucket is empty - no pass may hand it a fresh one; 25% of the cases are concurrent: 2-4 tasks issue 1-4 AllowRequest/AllowOperation calls each for 1-2 addresses and connections at ONE simulated instant under the seeded scheduler (buckets are created while others look them up; in half of these after earlier traffic and a silence of two hours, so that the periodic cleanup of idle limiters runs in the middle of the burst) and every limit may then admit at most its burst; non-trivial = at least one event; distinct by event digest",
 		Gen:  genC18, New: func() any { return &LimScn{} }, Run: runLimiter, Shrink: shrinkLim, Real: real, Stubbed: stub})
 	Register(&Prop{ID: "C19", Level: "exploration",
 		Rule: "one case = 20-100 events: an abusive client sending far beyond its per-IP/per-connection limit interleaved on the fake clock with compliant clients spaced seconds apart, under small global budgets; oracle: with reference buckets charged only by admitted requests, a compliant request inside its own limits is admitted whenever the admitted total leaves a token in the global budget; 25% of the cases are concurrent: an abusive client (3-7 requests) and 1-3 fresh clients call AllowRequest at one simulated instant from separate tasks under the seeded scheduler (global budget 1-3, per-client burst 1-2) and the decisions are checked with porcupine against a specification in which an admission needs room in both budgets and a refusal needs either an exhausted global budget (counting admitted requests only) or a client that has itself issued its burst; non-trivial = at least one event (>= 3 requests from >= 2 tasks when concurrent); distinct by event digest",
